@@ -9,6 +9,12 @@ NOTES = (
 RULE_NOT_BUILT = "rule set for this property is not built yet in this session; until it is, the property is not claimed (see DESIGN.md section 10) - "
 
 CLAIMED = {
+    "C07": dict(
+        text="Decides isolation and failure discipline structurally: no mutable/interior-mutable/thread-local static or process-global mutator exists; per-transform state is created only inside transform_stream and owns all its data; the HTTP handler and router carry no state; every front-end reaches the transform only through transform_stream via a closed table of entry points and adds no verdict after the core call; Err -> 400 text/plain / failure exit status, Ok -> image/svg+xml; every write to the output path is dominated by a successful transform into a temp file; the same-file refusal compares canonicalised paths and guards the only construction of cli::Config. OS-level partial writes are not decided.",
+        design_ref="DESIGN.md section 4 C07",
+        note="Trusted: rustc MIR and item tables (Freeze-ness of statics); axum delivering the built Response; std::fs/tempfile semantics. Known finding F17 (server maps empty output to 400).",
+        technique="static analysis: item/type walk for global state (A9), call-graph who-may-call tables (A1/A10), MIR dominance for fs writes and the same-file check (A13), constant extraction for HTTP status/headers, error-construction scan in front-end bodies (A6)",
+    ),
     "C15": dict(
         text="Decides the structural core of lexical scoping: scope push/pop pairing on every exit (incl. error exits that the retry loop turns into normal flow), both stacks move together, variables are written only into the innermost scope, <var> evaluates all attributes before assigning any, lookup is innermost-first with first hit deciding. Does not decide the string-level `$name` substitution.",
         design_ref="DESIGN.md section 4 C15",
@@ -43,7 +49,6 @@ NOT_APPLICABLE = {
         "C03": "planned: bypass dominance, escape balance; infoset equality itself is a two-execution comparison no static rule decides",
         "C04": "planned: pass-through filter; acceptance of the SVG grammars is a language-inclusion question, not a shape property",
         "C05": "planned: escape balance + sibling predicates; T(T(x))=T(x) itself compares two executions",
-        "C07": "planned: global-state, single-core, failure-signalling and output-file ordering rules",
         "C08": "planned: guarded root inserts; the extent value is numeric",
         "C09": "selection-table wiring only would be decidable; placement arithmetic is numeric",
         "C10": "planned: unknown-ref -> error, registration discipline; permutation invariance is a value statement",
